@@ -1,4 +1,5 @@
 import DaeVerif.C04.Lower
+import DaeVerif.C04.NfEq
 /-!
 # C04 — `SplitRequestRules`: taking the rules of one category = guarding every function by its category
 -/
